@@ -1280,10 +1280,24 @@ def _param_map(callee: ast.FunctionDef, call: ast.Call, skip_first: bool) -> dic
         m[a.vararg.arg] = ast.Tuple(elts=list(call.args[len(params):]), ctx=ast.Load())
     defaults = a.defaults
     pos_all = [x.arg for x in [*a.posonlyargs, *a.args]]
+    def _per_call_ok(d) -> bool:
+        # a default is evaluated once, at definition time: substituting its expression at the call site is only the same thing for values without
+        # identity (constants, tuples of constants, names): a `{}` / `[]` / `dict()` default is ONE object shared by all calls
+        if isinstance(d, ast.Constant) or isinstance(d, (ast.Name, ast.Attribute)):
+            return True
+        if isinstance(d, ast.Tuple):
+            return all(_per_call_ok(e) for e in d.elts)
+        if isinstance(d, ast.UnaryOp) and isinstance(d.operand, ast.Constant):
+            return True
+        return False
     for p, d in zip(pos_all[len(pos_all) - len(defaults):], defaults):
+        if p not in m and not _per_call_ok(d):
+            return None
         m.setdefault(p, d)
     for p, d in zip(kwonly, a.kw_defaults):
         if d is not None:
+            if p not in m and not _per_call_ok(d):
+                return None
             m.setdefault(p, d)
     if any(p not in m for p in params + kwonly):
         return None
